@@ -23,6 +23,8 @@ Lemma Zq_minus a b : Zq (a - b) == Zq a - Zq b.
 Proof. unfold Z.sub. rewrite Zq_plus, Zq_opp. ring. Qed.
 Lemma Zq_le a b : (a <= b)%Z <-> Zq a <= Zq b.
 Proof. unfold Zq. rewrite Zle_Qle. tauto. Qed.
+Lemma Zq_lt1 a b : (a < b)%Z -> Zq a < Zq b.
+Proof. unfold Zq. rewrite <- Zlt_Qlt. tauto. Qed.
 Lemma Zq_le1 a b : (a <= b)%Z -> Zq a <= Zq b.
 Proof. apply Zq_le. Qed.
 Lemma Zq_lt a b : (a < b)%Z <-> Zq a < Zq b.
@@ -693,3 +695,246 @@ Proof.
   { split; [change 0 with (Zq 0) | change 1 with (Zq 1)]; apply Zq_le1; lia. }
   repeat split; lra.
 Qed.
+
+(** * Zooming *)
+Lemma Qeq_bool_false_pos x : 0 < x -> Qeq_bool x 0 = false.
+Proof.
+  intros H. destruct (Qeq_bool x 0) eqn:E; [|reflexivity]. apply Qeq_bool_iff in E. lra.
+Qed.
+
+Lemma Qeq_bool_false_nz x : ~ x == 0 -> Qeq_bool x 0 = false.
+Proof.
+  intros H. destruct (Qeq_bool x 0) eqn:E; [|reflexivity]. apply Qeq_bool_iff in E. tauto.
+Qed.
+
+Lemma div_le_div x n f : 0 < f -> x <= n -> x / f <= n / f.
+Proof.
+  intros Hf H. unfold Qdiv. apply Qmult_le_compat_r; [exact H|].
+  apply Qlt_le_weak, Qinv_lt_0_compat, Hf.
+Qed.
+
+Lemma div_nonneg x f : 0 < f -> 0 <= x -> 0 <= x / f.
+Proof. intros Hf H. apply Qle_shift_div_l; [exact Hf | lra]. Qed.
+
+Lemma zoom_dim_spec n f : 0 < f ->
+  (1 <= zoom_dim n f)%Z /\ Zq n / f <= Zq (zoom_dim n f) /\
+  (Zq (zoom_dim n f) < Zq n / f + 1 \/ zoom_dim n f = 1%Z).
+Proof.
+  intros Hf. unfold zoom_dim.
+  destruct (Qceiling_spec (Zq n / f)) as (c & Ec & H1 & H2).
+  set (z := Qceiling (Zq n / f)) in *.
+  assert (Ez : Zq z == c) by (rewrite Ec; reflexivity).
+  destruct (Z.max_spec 1 z) as [[Hlt ->] | [Hle ->]].
+  - split; [lia|]. rewrite Ez. split; [exact H2 | left; lra].
+  - split; [lia|]. split; [|right; reflexivity].
+    apply Zq_le in Hle. rewrite Ez in Hle. change (Zq 1) with 1 in *. lra.
+Qed.
+
+Lemma zoom_out_contract g f : 0 < f ->
+  exists g', zoom_out g f = Ok g' /\
+    g_ny g' = zoom_dim (g_ny g) f /\ g_nx g' = zoom_dim (g_nx g) f /\ g_crs g' = g_crs g /\
+    (forall p, peq (pix2wld g' p) (pix2wld g (f * fst p, f * snd p))) /\
+    covers g g'.
+Proof.
+  intros Hf. unfold zoom_out. rewrite (Qeq_bool_false_pos f Hf).
+  eexists; split; [reflexivity|]. cbn [g_ny g_nx g_crs].
+  split; [reflexivity|]. split; [reflexivity|]. split; [reflexivity|]. split.
+  - intros p. unf. split; ring.
+  - apply covers_by_map with (f := fun p => (fst p / f, snd p / f)).
+    intros p (X0 & X1 & Y0 & Y1).
+    destruct (zoom_dim_spec (g_nx g) f Hf) as (_ & Dx & _).
+    destruct (zoom_dim_spec (g_ny g) f Hf) as (_ & Dy & _).
+    split.
+    + unfold in_rect; cbn [g_ny g_nx fst snd].
+      pose proof (div_le_div _ _ f Hf X1). pose proof (div_le_div _ _ f Hf Y1).
+      pose proof (div_nonneg _ f Hf X0). pose proof (div_nonneg _ f Hf Y0).
+      repeat split; lra.
+    + unf. split; field; lra.
+Qed.
+
+Lemma zoom_to_shape_contract g ny nx : (1 <= ny)%Z -> (1 <= nx)%Z ->
+  exists g', zoom_to_shape g ny nx = Ok g' /\
+    g_ny g' = ny /\ g_nx g' = nx /\ g_crs g' = g_crs g /\
+    (forall p, peq (pix2wld g' p)
+                   (pix2wld g (fst p * (Zq (g_nx g) / Zq nx), snd p * (Zq (g_ny g) / Zq ny)))) /\
+    peq (pix2wld g' (Zq nx, Zq ny)) (pix2wld g (Zq (g_nx g), Zq (g_ny g))) /\
+    ((0 <= g_ny g)%Z -> (0 <= g_nx g)%Z -> covers g' g) /\
+    ((1 <= g_ny g)%Z -> (1 <= g_nx g)%Z -> covers g g').
+Proof.
+  intros Hy Hx. unfold zoom_to_shape.
+  destruct (ny =? 0)%Z eqn:E1; [apply Z.eqb_eq in E1; lia|].
+  destruct (nx =? 0)%Z eqn:E2; [apply Z.eqb_eq in E2; lia|].
+  cbn [orb]. eexists; split; [reflexivity|]. cbn [g_ny g_nx g_crs].
+  apply Zq_le in Hy, Hx. change (Zq 1) with 1 in *.
+  split; [reflexivity|]. split; [reflexivity|]. split; [reflexivity|].
+  split; [|split; [|split]].
+  - intros p. unf. split; ring.
+  - unf. split; field; lra.
+  - intros Gy Gx. apply Zq_le in Gy, Gx. change (Zq 0) with 0 in *.
+    apply covers_by_map with (f := fun p => (fst p * (Zq (g_nx g) / Zq nx), snd p * (Zq (g_ny g) / Zq ny))).
+    intros p (X0 & X1 & Y0 & Y1). cbn [g_ny g_nx] in *. split.
+    + unfold in_rect; cbn [fst snd].
+      assert (Ux0 : 0 <= fst p / Zq nx) by (apply div_nonneg; lra).
+      assert (Ux1 : fst p / Zq nx <= 1) by (apply Qle_shift_div_r; lra).
+      assert (Uy0 : 0 <= snd p / Zq ny) by (apply div_nonneg; lra).
+      assert (Uy1 : snd p / Zq ny <= 1) by (apply Qle_shift_div_r; lra).
+      assert (Ex : fst p * (Zq (g_nx g) / Zq nx) == (fst p / Zq nx) * Zq (g_nx g)) by (field; lra).
+      assert (Ey : snd p * (Zq (g_ny g) / Zq ny) == (snd p / Zq ny) * Zq (g_ny g)) by (field; lra).
+      rewrite Ex, Ey.
+      assert (0 <= (fst p / Zq nx) * Zq (g_nx g)) by (apply Qmult_le_0_compat; lra).
+      assert (0 <= (1 - fst p / Zq nx) * Zq (g_nx g)) by (apply Qmult_le_0_compat; lra).
+      assert (0 <= (snd p / Zq ny) * Zq (g_ny g)) by (apply Qmult_le_0_compat; lra).
+      assert (0 <= (1 - snd p / Zq ny) * Zq (g_ny g)) by (apply Qmult_le_0_compat; lra).
+      repeat split; lra.
+    + unf. split; ring.
+  - intros Gy Gx. apply Zq_le in Gy, Gx. change (Zq 1) with 1 in *.
+    apply covers_by_map with (f := fun p => (fst p / Zq (g_nx g) * Zq nx, snd p / Zq (g_ny g) * Zq ny)).
+    intros p (X0 & X1 & Y0 & Y1). split.
+    + unfold in_rect; cbn [g_ny g_nx fst snd].
+      assert (Ux0 : 0 <= fst p / Zq (g_nx g)) by (apply div_nonneg; lra).
+      assert (Ux1 : fst p / Zq (g_nx g) <= 1) by (apply Qle_shift_div_r; lra).
+      assert (Uy0 : 0 <= snd p / Zq (g_ny g)) by (apply div_nonneg; lra).
+      assert (Uy1 : snd p / Zq (g_ny g) <= 1) by (apply Qle_shift_div_r; lra).
+      assert (0 <= (fst p / Zq (g_nx g)) * Zq nx) by (apply Qmult_le_0_compat; lra).
+      assert (0 <= (1 - fst p / Zq (g_nx g)) * Zq nx) by (apply Qmult_le_0_compat; lra).
+      assert (0 <= (snd p / Zq (g_ny g)) * Zq ny) by (apply Qmult_le_0_compat; lra).
+      assert (0 <= (1 - snd p / Zq (g_ny g)) * Zq ny) by (apply Qmult_le_0_compat; lra).
+      repeat split; lra.
+    + unf. split; field; lra.
+Qed.
+
+Lemma zoom_to_n_contract g k : (1 <= k)%Z -> (1 <= Z.max (g_ny g) (g_nx g))%Z ->
+  let f := Zq (Z.max (g_ny g) (g_nx g)) / Zq k in
+  0 < f /\ zoom_to_n g (Zq k) = zoom_out g f /\
+  exists g', zoom_to_n g (Zq k) = Ok g' /\ Z.max (g_ny g') (g_nx g') = k.
+Proof.
+  intros Hk Hm. cbv zeta.
+  set (m := Z.max (g_ny g) (g_nx g)) in *.
+  assert (Hk' : 1 <= Zq k) by (change 1 with (Zq 1); apply Zq_le1; exact Hk).
+  assert (Hm' : 1 <= Zq m) by (change 1 with (Zq 1); apply Zq_le1; exact Hm).
+  assert (Hf : 0 < Zq m / Zq k) by (apply Qlt_shift_div_l; lra).
+  split; [exact Hf|].
+  assert (E : zoom_to_n g (Zq k) = zoom_out g (Zq m / Zq k)).
+  { unfold zoom_to_n. rewrite Qeq_bool_false_pos by lra. reflexivity. }
+  split; [exact E|].
+  destruct (zoom_out_contract g _ Hf) as (g' & Hg & Sy & Sx & _).
+  exists g'. split; [rewrite E; exact Hg|]. rewrite Sy, Sx.
+  assert (Dm : zoom_dim m (Zq m / Zq k) = k).
+  { unfold zoom_dim.
+    assert (Eq : Zq m / (Zq m / Zq k) == Zq k) by (field; split; lra).
+    rewrite Eq. unfold Zq. rewrite Qceiling_Z. lia. }
+  assert (Mono : forall n, (n <= m)%Z -> (zoom_dim n (Zq m / Zq k) <= k)%Z).
+  { intros n Hn. apply Z.le_trans with (zoom_dim m (Zq m / Zq k)); [|lia]. unfold zoom_dim.
+    apply Z.max_le_compat_l. apply Qceiling_resp_le. apply div_le_div; [exact Hf|].
+    apply Zq_le1; exact Hn. }
+  pose proof (Mono (g_ny g) ltac:(unfold m; lia)) as My.
+  pose proof (Mono (g_nx g) ltac:(unfold m; lia)) as Mx.
+  destruct (Z.max_spec (g_ny g) (g_nx g)) as [[Hc Em] | [Hc Em]]; fold m in Em.
+  - assert (Hx : zoom_dim (g_nx g) (Zq m / Zq k) = zoom_dim m (Zq m / Zq k)) by (f_equal; lia). lia.
+  - assert (Hy : zoom_dim (g_ny g) (Zq m / Zq k) = zoom_dim m (Zq m / Zq k)) by (f_equal; lia). lia.
+Qed.
+
+(** scaled_down_geobox *)
+Lemma scaled_dim_spec n s : (1 < s)%Z -> (0 <= n)%Z ->
+  (n <= s * scaled_dim n s < n + s)%Z /\ (0 <= scaled_dim n s)%Z.
+Proof.
+  intros Hs Hn. unfold scaled_dim.
+  pose proof (Z.div_mod n s ltac:(lia)) as D. pose proof (Z.mod_pos_bound n s ltac:(lia)) as B.
+  assert (Q0 : (0 <= n / s)%Z) by (apply Z.div_pos; lia).
+  destruct (n mod s =? 0)%Z eqn:E; [apply Z.eqb_eq in E | apply Z.eqb_neq in E]; nia.
+Qed.
+
+Lemma scaled_down_contract g s : (1 < s)%Z ->
+  exists g', scaled_down_geobox g s = Ok g' /\
+    g_ny g' = scaled_dim (g_ny g) s /\ g_nx g' = scaled_dim (g_nx g) s /\ g_crs g' = g_crs g /\
+    (forall p, peq (pix2wld g' p) (pix2wld g (Zq s * fst p, Zq s * snd p))) /\
+    ((0 <= g_ny g)%Z -> (0 <= g_nx g)%Z -> covers g g').
+Proof.
+  intros Hs. unfold scaled_down_geobox.
+  destruct (s >? 1)%Z eqn:E; [|rewrite Z.gtb_ltb in E; apply Z.ltb_ge in E; lia].
+  eexists; split; [reflexivity|]. cbn [g_ny g_nx g_crs].
+  split; [reflexivity|]. split; [reflexivity|]. split; [reflexivity|]. split.
+  - intros p. unf. split; ring.
+  - intros Gy Gx.
+    destruct (scaled_dim_spec (g_ny g) s Hs Gy) as ([Y1 _] & _).
+    destruct (scaled_dim_spec (g_nx g) s Hs Gx) as ([X1 _] & _).
+    apply Zq_le in Y1, X1. rewrite Zq_mult in Y1, X1.
+    assert (Hs' : 1 < Zq s) by (change 1 with (Zq 1); apply Zq_lt1; exact Hs).
+    apply covers_by_map with (f := fun p => (fst p / Zq s, snd p / Zq s)).
+    intros p (A0 & A1 & B0 & B1). split.
+    + unfold in_rect; cbn [g_ny g_nx fst snd].
+      assert (0 < Zq s) by lra.
+      split; [apply div_nonneg; assumption|]. split; [apply Qle_shift_div_r; lra|].
+      split; [apply div_nonneg; assumption|]. apply Qle_shift_div_r; lra.
+    + unf. split; field; lra.
+Qed.
+
+(** * Buffering *)
+Lemma Qabs_pos r : ~ r == 0 -> 0 < Qabs r.
+Proof. intros H. apply Qabs_case; intros; lra. Qed.
+
+Lemma round_to_res_spec c v r : ~ r == 0 ->
+  let b := round_to_res c v r in
+  v - tenth c * Qabs r <= Zq b * Qabs r /\ (Zq b - 1) * Qabs r < v - tenth c * Qabs r.
+Proof.
+  intros Hr. cbv zeta. unfold round_to_res.
+  pose proof (Qabs_pos r Hr) as HR. set (R := Qabs r) in *.
+  destruct (Qceiling_spec ((v - tenth c * R) / R)) as (k & Ek & H1 & H2).
+  unfold Zq. rewrite <- Ek.
+  assert (E : (v - tenth c * R) / R * R == v - tenth c * R) by (field; lra).
+  assert (G1 : 0 <= (k - (v - tenth c * R) / R) * R) by (apply Qmult_le_0_compat; lra).
+  assert (G2 : 0 < ((v - tenth c * R) / R - (k - 1)) * R) by (apply Qmult_lt_0_compat; lra).
+  split; lra.
+Qed.
+
+Lemma round_to_res_nonneg c v r : ~ r == 0 -> 0 <= v -> tenth c < 1 -> (0 <= round_to_res c v r)%Z.
+Proof.
+  intros Hr Hv Ht.
+  destruct (round_to_res_spec c v r Hr) as [H1 _].
+  pose proof (Qabs_pos r Hr) as HR. set (R := Qabs r) in *.
+  set (b := round_to_res c v r) in *.
+  destruct (Z_lt_le_dec b 0) as [Hneg | Hok]; [|exact Hok]. exfalso.
+  assert (Hb : Zq b <= -1) by (change (-1) with (Zq (-1)); apply Zq_le1; lia).
+  assert (G : 0 <= (-1 - Zq b) * R) by (apply Qmult_le_0_compat; lra).
+  assert (G2 : 0 < (1 - tenth c) * R) by (apply Qmult_lt_0_compat; lra).
+  lra.
+Qed.
+
+Local Opaque Z.mul.
+Lemma buffered_contract c g xb yb g' : buffered c g xb yb = Ok g' ->
+  let ybv := match yb with None => xb | Some v => v end in
+  exists rx ry, resolution c g = Ok (rx, ry) /\ ~ rx == 0 /\ ~ ry == 0 /\
+    let bx := round_to_res c xb rx in
+    let by_ := round_to_res c ybv ry in
+    g_ny g' = (g_ny g + 2 * by_)%Z /\ g_nx g' = (g_nx g + 2 * bx)%Z /\ g_crs g' = g_crs g /\
+    (forall p, peq (pix2wld g' p) (pix2wld g (fst p - Zq bx, snd p - Zq by_))) /\
+    xb - tenth c * Qabs rx <= Zq bx * Qabs rx /\ (Zq bx - 1) * Qabs rx < xb - tenth c * Qabs rx /\
+    ybv - tenth c * Qabs ry <= Zq by_ * Qabs ry /\ (Zq by_ - 1) * Qabs ry < ybv - tenth c * Qabs ry /\
+    (0 <= xb -> 0 <= ybv -> tenth c < 1 -> covers g g').
+Proof.
+  unfold buffered. cbv zeta.
+  destruct (resolution c g) as [[rx ry]|e] eqn:Er; [|discriminate]. cbn [bind].
+  destruct (Qeq_bool rx 0) eqn:E1; [discriminate|].
+  destruct (Qeq_bool ry 0) eqn:E2; [discriminate|]. cbn [orb].
+  intros H; injection H as <-.
+  assert (Hrx : ~ rx == 0) by (intros C; apply Qeq_bool_iff in C; congruence).
+  assert (Hry : ~ ry == 0) by (intros C; apply Qeq_bool_iff in C; congruence).
+  exists rx, ry. split; [reflexivity|]. split; [exact Hrx|]. split; [exact Hry|].
+  cbn [g_ny g_nx g_crs].
+  set (ybv := match yb with None => xb | Some v => v end).
+  destruct (round_to_res_spec c xb rx Hrx) as [X1 X2].
+  destruct (round_to_res_spec c ybv ry Hry) as [Y1 Y2].
+  split; [reflexivity|]. split; [reflexivity|]. split; [reflexivity|].
+  split; [intros p; unf; zq; split; ring|].
+  split; [exact X1|]. split; [exact X2|]. split; [exact Y1|]. split; [exact Y2|].
+  intros Hxb Hyb Ht.
+  pose proof (round_to_res_nonneg c xb rx Hrx Hxb Ht) as Bx.
+  pose proof (round_to_res_nonneg c ybv ry Hry Hyb Ht) as By.
+  apply Zq_le in Bx, By. change (Zq 0) with 0 in *.
+  apply covers_by_map with
+    (f := fun p => (fst p + Zq (round_to_res c xb rx), snd p + Zq (round_to_res c ybv ry))).
+  intros p (A0 & A1 & B0 & B1). split.
+  - unfold in_rect; cbn [g_ny g_nx fst snd]. zq. change (Zq 2) with 2. repeat split; lra.
+  - unf. zq. split; ring.
+Qed.
+Local Transparent Z.mul.
